@@ -111,11 +111,11 @@ func v08PickScenario() *v08Scenario {
 
 // v08State: contributions of the owners and the running configuration.
 type v08State struct {
-	sc   *v08Scenario
-	prio map[string]int32
-	cas  map[string]int             // owner -> chosen case (-1 = owner has no intent)
-	pres map[string]map[string]bool // leaf id -> owner -> present
-	val  map[string]map[string]v08Val
+	sc    *v08Scenario
+	prio  map[string]int32
+	cas   map[string]int             // owner -> chosen case (-1 = owner has no intent)
+	pres  map[string]map[string]bool // leaf id -> owner -> present
+	val   map[string]map[string]v08Val
 	rpres map[string]bool
 	rval  map[string]v08Val
 }
